@@ -124,3 +124,34 @@ pub fn catch<T>(f: impl FnOnce() -> T + std::panic::UnwindSafe) -> Option<T> {
 pub fn quiet_panics() {
     std::panic::set_hook(Box::new(|_| {}));
 }
+
+/// Common command line of all harness binaries.
+pub fn harness_main(run_property: fn(&str, &str, u64, &mut Sink) -> bool, observe_line: fn(&str) -> String) {
+    use std::io::BufRead;
+    let args: Vec<String> = std::env::args().collect();
+    quiet_panics();
+    match args.get(1).map(|s| s.as_str()) {
+        Some("gen") if args.len() >= 6 => {
+            let (prop, tier, seed, out) = (&args[2], &args[3], args[4].parse::<u64>().unwrap(), &args[5]);
+            let mut sink = Sink::new(out);
+            if !run_property(prop, tier, seed, &mut sink) {
+                eprintln!("unknown property {prop}");
+                std::process::exit(2);
+            }
+            sink.finish();
+        }
+        Some("obs") => {
+            let stdin = std::io::stdin();
+            for line in stdin.lock().lines() {
+                // a panic inside the implementation is an observation, not a harness failure
+                let l = line.unwrap();
+                let o = catch(|| observe_line(&l)).unwrap_or_else(|| "panic".to_string());
+                println!("{o}");
+            }
+        }
+        _ => {
+            eprintln!("usage: gen <property> <tier> <seed> <outdir> | obs < cases");
+            std::process::exit(2);
+        }
+    }
+}
